@@ -562,6 +562,7 @@ def loader_chain_rule(ctx, ck, rid):
     (only error-message adapters over the Result are allowed)"""
     ok = False
     why = "no successful path"
+    other_ok = None
     saved = mir.Walker.AUTO_INLINE
     mir.Walker.AUTO_INLINE = False      # a new helper between the steps must stay visible as a call (body as compiled)
     try:
@@ -574,6 +575,10 @@ def loader_chain_rule(ctx, ck, rid):
             continue
         r = p.outcome[1]
         if not (isinstance(r, tuple) and r[0] == "call" and r[1] == "fancy_layout_interpreting::convert"):
+            # any other way out must be a failure: a layout that is returned without having been converted (a cache, a
+            # "the file is already in expanded form" fast path) has skipped the parser's and the converter's checks
+            if not (_is_failure(r)):
+                other_ok = "a path returns %s: a layout that did not come out of convert(parse(document))" % show(r)[:80]
             continue
 
         def through_adapters(t):
@@ -607,4 +612,13 @@ def loader_chain_rule(ctx, ck, rid):
             why = "%s is given mutable access to the document between reading and converting it" % touched[0].a
             break
         ok, why = True, None
+    if other_ok is not None:
+        ok, why = False, other_ok
     ck.ob(rid, ll.path, "the-document-goes-from-from_reader-to-parse-to-convert-untouched", ok, detail=why)
+
+
+def _is_failure(r):
+    """Err(..) built here, or the failure of a `?`"""
+    if isinstance(r, tuple) and r and r[0] == "from_residual":
+        return True
+    return isinstance(r, tuple) and len(r) > 2 and r[0] == "agg" and r[2] == "Err"
